@@ -9,6 +9,7 @@ import os
 DECL = {
     "sig": ["signal s1 : std_logic;"],
     "sigm": ["signal s2, s3 : std_logic_vector(7 downto 0) := (others => '0');"],
+    "sig3": ["signal s4, s5, s6 : std_logic;"],
     "const": ["constant c1 : integer := 5;"],
     "consta": ["constant c2 : t_arr := (0 => 1, 1 => 2);"],
     "var": ["shared variable v1 : integer;"],
